@@ -317,6 +317,41 @@ macro_rules! de_routes {
 					judge!("serde_json::from_slice -> borrowed", serde_json::from_slice::<&$T>(&json));
 				}
 			}
+			// tokens that are not text at all (integers, floats, booleans, characters, unit, sequences): whatever a
+			// Deserialize impl makes of them, an Ok result must hold text the checked constructor accepts
+			{
+				use serde::de::value::{BoolDeserializer, CharDeserializer, F64Deserializer, I64Deserializer, U64Deserializer, UnitDeserializer, I8Deserializer, U16Deserializer, I128Deserializer};
+				let k = input.iter().fold(input.len() as u64, |a, b| a.wrapping_mul(131).wrapping_add(*b as u64));
+				let ints: [i64; 8] = [-1, 0, -(k as i64 & 0xffff) - 1, (k & 0xffff) as i64, 80, i64::MIN, i64::MAX, -80];
+				macro_rules! token {
+					($route:expr, $res:expr) => {{
+						if let Ok(v) = $res {
+							ensure!(<$T>::new(v.as_str()).is_ok(), format!("de-nontext-token-invalid:{}", $route.split('(').next().unwrap_or("")), "{n} via {}: Ok value with text {:?}, which the checked constructor rejects", $route, v.as_str());
+						}
+						cx.obs(1);
+					}};
+				}
+				for x in ints {
+					token!(format!("I64Deserializer({x}) -> owned"), <$TBuf>::deserialize(I64Deserializer::<DeError>::new(x)));
+					token!(format!("serde_json number({x}) -> owned"), serde_json::from_value::<$TBuf>(serde_json::Value::from(x)));
+					token!(format!("I128Deserializer({x}) -> owned"), <$TBuf>::deserialize(I128Deserializer::<DeError>::new(x as i128 * 3)));
+				}
+				token!("I8Deserializer(-7) -> owned", <$TBuf>::deserialize(I8Deserializer::<DeError>::new(-7)));
+				token!("U16Deserializer -> owned", <$TBuf>::deserialize(U16Deserializer::<DeError>::new(k as u16)));
+				token!("U64Deserializer -> owned", <$TBuf>::deserialize(U64Deserializer::<DeError>::new(k)));
+				token!("U64Deserializer(MAX) -> owned", <$TBuf>::deserialize(U64Deserializer::<DeError>::new(u64::MAX)));
+				for f in [-1.5f64, 0.0, 8080.0, 1e300, f64::NAN, f64::NEG_INFINITY] {
+					token!(format!("F64Deserializer({f}) -> owned"), <$TBuf>::deserialize(F64Deserializer::<DeError>::new(f)));
+				}
+				token!("BoolDeserializer -> owned", <$TBuf>::deserialize(BoolDeserializer::<DeError>::new(k & 1 == 0)));
+				for c in [' ', '%', '#', '-', char::from_u32(0xE000 + (k as u32 & 0xff)).unwrap_or('x'), '\u{e0001}'] {
+					token!(format!("CharDeserializer({c:?}) -> owned"), <$TBuf>::deserialize(CharDeserializer::<DeError>::new(c)));
+				}
+				token!("UnitDeserializer -> owned", <$TBuf>::deserialize(UnitDeserializer::<DeError>::new()));
+				token!("serde_json null -> owned", serde_json::from_value::<$TBuf>(serde_json::Value::Null));
+				token!("serde_json array -> owned", serde_json::from_value::<$TBuf>(serde_json::json!([-1, "a b"])));
+				token!("serde_json object -> owned", serde_json::from_value::<$TBuf>(serde_json::json!({"port": -1})));
+			}
 			Ok(())
 		}
 	};
@@ -406,7 +441,7 @@ impl Prop for C14 {
 	const ID: &'static str = "C14";
 
 	fn rule() -> String {
-		"cases = (type in the 20 validated types, input: structural generator output, grammar derivations, 1-3 edit mutants, random byte strings incl. ill-formed UTF-8, optional equivalent-but-different spelling). Routes OUT on accepted inputs (30 per type): Display, Debug, as_str, as_bytes, AsRef<str|[u8]>, Borrow<raw|T>, From<&T> for &raw/&str, to_owned, Clone, Deref, into_string, into_bytes, From<Buf> for String/Vec, serde_json::to_string (borrowed and owned), again after ==/hash; value == plain str/String/bytes must be PLAIN text equality (own text equal, an equivalent-but-different spelling and text+'x' unequal). Routes IN (every input): the C01 routes (new, validate, Buf::new, TryFrom x4, FromStr, from_vec, serde_json borrowed/owned) plus serde value deserialisers StrDeserializer, StringDeserializer, BorrowedStrDeserializer, BytesDeserializer, BorrowedBytesDeserializer, IntoDeserializer, serde_json::from_slice / from_value into owned and borrowed targets: accept IFF the checked constructor accepts, same text. Non-trivial: an invalid input through a (de)serialisation route, or a valid non-ASCII / pct-bearing value.".into()
+		"cases = (type in the 20 validated types, input: structural generator output, grammar derivations, 1-3 edit mutants, random byte strings incl. ill-formed UTF-8, optional equivalent-but-different spelling). Routes OUT on accepted inputs (30 per type): Display, Debug, as_str, as_bytes, AsRef<str|[u8]>, Borrow<raw|T>, From<&T> for &raw/&str, to_owned, Clone, Deref, into_string, into_bytes, From<Buf> for String/Vec, serde_json::to_string (borrowed and owned), again after ==/hash; value == plain str/String/bytes must be PLAIN text equality (own text equal, an equivalent-but-different spelling and text+'x' unequal). Routes IN (every input): the C01 routes (new, validate, Buf::new, TryFrom x4, FromStr, from_vec, serde_json borrowed/owned) plus serde value deserialisers StrDeserializer, StringDeserializer, BorrowedStrDeserializer, BytesDeserializer, BorrowedBytesDeserializer, IntoDeserializer, serde_json::from_slice / from_value into owned and borrowed targets: accept IFF the checked constructor accepts, same text; ~50 NON-TEXT tokens per case (I8/I64/I128/U16/U64/F64/Bool/Char/Unit deserialisers, JSON numbers, null, arrays, objects) into every owned type: an Ok result must hold text the checked constructor accepts. Non-trivial: an invalid input through a (de)serialisation route, or a valid non-ASCII / pct-bearing value.".into()
 	}
 
 	fn assumptions() -> Vec<String> {
